@@ -4,7 +4,8 @@
 From Coq Require Import ZArith QArith Qcanon List Bool String Ring_theory.
 Import ListNotations.
 Require Import TV.Base.EP TV.Model.Lane TV.Spec.Born TV.gen.Gen_instructions TV.gen.Gen_channel_tables
-  TV.Model.GateCheck TV.Model.InstrCheck TV.Proofs.InstrProofs.
+  TV.Model.GateCheck TV.Model.InstrCheck TV.Model.KrausCheck TV.Proofs.InstrProofs TV.Base.Amp
+  TV.Proofs.CircuitTheorem TV.Proofs.DenseBridge TV.Proofs.KrausSem TV.Proofs.KrausTheorem TV.Proofs.KrausGates TV.Proofs.KrausCircuit.
 
 (* which Pauli the spiders apply for every error-bit pattern: X/Y/Z_ERROR, PAULI_CHANNEL_1/2, DEPOLARIZE1/2, E(...) *)
 Theorem C02_noise_paulis :
@@ -45,3 +46,38 @@ Proof. exact corr_acc_spec. Qed.
    projection onto the TRUE outcome r xor inv xor e (these are the noisy cases of the C01 tables) *)
 Theorem C02_measurement_noise : forallb check_meas meas_fns = true /\ check_mpp = true.
 Proof. split; [exact meas_ok | exact mpp_ok]. Qed.
+
+
+(* ======================= composition with noise ======================= *)
+(* the single-qubit Pauli channels and the noisy measurements, entered on a lane in EVERY flag state, for every value of the
+   record / silent / four error bits in their window: the error bits select the documented Pauli (x_error: X^e0, y_error: Y^e0,
+   z_error: Z^e0, depolarize1 / pauli_channel_1: Z^e0 X^e1, i.e. table index e0 + 2 e1 -> I, Z, X, Y); a noisy measurement
+   reports the true outcome xor its error bit while the post-measurement state follows the true outcome *)
+Theorem C02_noise_fragments_every_entry_state :
+  forallb check_noise1_at noise1_fns = true /\ forallb check_meas_noisy_at meas_fns = true.
+Proof. exact (conj noise1_at_ok meas_noisy_at_ok). Qed.
+
+(* the composition theorem of C01 with noise inside: circuits of GATE_TABLE gates, noiseless and NOISY single-qubit measurements,
+   resets and single-qubit Pauli channels (X/Y/Z_ERROR, DEPOLARIZE1, PAULI_CHANNEL_1, any probabilities) on any lanes of a
+   register of any size n.  For EVERY assignment b of record, silent and error bits the executable dense model computes the ordered
+   composition of the documented operators -- with exactly the Paulis that b's error bits select -- times a bit-independent product
+   of powers of sqrt2 and a unit phase.  Together with the table theorems above (entry idx of a channel's table = the documented
+   probability of the Pauli drawn at idx) this is the mixture semantics of the channels, channel by channel.  Two-qubit channels,
+   correlated chains and MPP noise stay at fragment level (C02_noise_paulis, C02_correlated_chain, C02_measurement_noise). *)
+Theorem C02_circuit_dense :
+  forall (R : Type) (rO rI : R) (radd rmul rsub : R -> R -> R) (ropp : R -> R),
+  ring_theory rO rI radd rmul rsub ropp eq ->
+  forall E : Qc -> R, (forall a b, E (a + b)%Qc = rmul (E a) (E b)) -> E 0%Qc = rI -> E 1%Qc = ropp rI ->
+  forall half : R, radd half half = rI -> forall ta tb tc : Qc,
+  forall (n : nat) (c : list cinstr) (ops : list (op nat)), ccircuit_ops c = Some ops -> forallb (cinstr_lanes_ok n) c = true ->
+  exists C, sq2 R rO rI radd rmul ropp E half ta tb tc C /\ forall b, exists e : Qc,
+    st_of R rO rI radd rmul ropp E half ta tb tc n (final_vec (run n b ops (init_state n)))
+    = Amp.scale R rmul (rmul (E e) C)
+        (cspec R rO rI radd rmul ropp E half ta tb tc b (kinit R rO rI n) c (kpsi R (kinit R rO rI n))).
+Proof. exact circuit_kraus_dense. Qed.
+
+Example C02_circuit_inhabited :
+  let c := [CG (GA1 "H" 1); CN "x_error" [1 # 8] 1; CG (GA2 "CX" 1 0); CN "pauli_channel_1" [1 # 16; 1 # 8; 1 # 4] 0; CN "depolarize1" [3 # 4] 2;
+            CMp "mr" (1 # 8) true 1; CN "y_error" [1 # 2] 1; CMp "mx" (1 # 1000) false 0; CM "my" false 2]%string%Q in
+  (exists ops, ccircuit_ops c = Some ops /\ (20 < List.length ops)%nat) /\ forallb (cinstr_lanes_ok 3) c = true.
+Proof. vm_compute. split; [eexists; split; [reflexivity | repeat constructor] | reflexivity]. Qed.
